@@ -22,7 +22,7 @@ CLAIMED = {
              "instants: offset_exact, add_inverse, add_refuses (all int64 offsets incl. INT64_MIN), rate_zero, lt_iff/le_iff, "
              "addTimeOffset_no_overflow, and the block invariant earliest_le proved by induction over all arrival orders of "
              "timed/untimed records (offsets_nonneg_and_recovered). Tied to the code by differential runs of the real "
-             "Timestamp and CdnsBlock (grid, boundaries, random, block histories written and read back) under UBSan. Histories also continue on copies of the block (copy construction / assignment mid-history). C01.record_times_recovered lifts the invariant to every block the builder model produces.",
+             "Timestamp and CdnsBlock (grid, boundaries, random, block histories written and read back) under UBSan. Histories also continue on copies of the block (copy construction / assignment mid-history). C01.record_times_recovered lifts the invariant to every block the builder model produces. add_result_normal / reoffset_recovers: whatever add_time_offset returns on an in-range reference is in range and normalised, and get_time_offset of it followed by add_time_offset gives it back (negative offsets included) - the arithmetic behind write-after-read (C18). Timestamps that are not normalised (ticks >= rate) in the differential runs: refused offsets leave both members unchanged.",
         note="Trusted: Lean kernel + propext/Classical.choice/Quot.sound; harness/ts.cpp, Driver/Ts.lean; two's-complement "
              "uint64->int64 conversion of g++/x86-64; UBSan for undefined arithmetic.",
         technique="Lean 4 proof (arithmetic lemmas + invariant by induction over block operations) + differential correspondence",
@@ -50,12 +50,19 @@ CLAIMED = {
              "structs + value bounds carried through all builder steps + index bounds from referential closure). record_times_recovered: every "
              "stored time of every built block is written as an offset < 2^63 from which add_time_offset recovers it exactly (the builder's "
              "time members refine the C17 model); address_event_totals and block_statistics_latest: counts and statistics for every record "
-             "sequence. Plus keys/hint bits = RFC 8618, time offsets (C17), "
+             "sequence. export_read_records / export_read_records_blocks close the chain in ONE statement: records buffered -> block(s) built -> bytes "
+             "written -> bytes read (decoder model) -> block object (Model.ReadBlock.ofVal = CdnsBlockRead::read after the raw read: parameter-set "
+             "selection, Timestamp check, table filling, time arithmetic) -> records returned by read_generic_qr/mm/aec through the bounds-checked "
+             "accessors (records): no exception on the way, query/responses and malformed messages are the hint projections of those buffered in "
+             "order with exact times, address-event totals and statistics as supplied - for any number of blocks and any block boundaries "
+             "(ofVal_toVal: the block reader inverts the block writer; records_closed: on a closed block no accessor throws). "
+             "Plus keys/hint bits = RFC 8618, time offsets (C17), "
              "encoder (C06), exporter conservation (C12). Tie to the code on every session: model block bytes = library block bytes (bld), "
              "model reader dump = library reader dump and model writer bytes = library bytes (blk), Lean projection = the records the library "
-             "reader returns (prjd); and the three-way differential with the independent Lean RFC 8618 reader and the reference expectation.",
-        note="What is proved is about the models: Model/Builder.lean, Model/Resolve.lean, Model/Structs.lean are hand-written and tied to the "
-             "code by the bld/blk/prjd correspondences on every session; the exporter's choice of block boundaries is C12's abstract model. "
+             "reader returns (prjd), Model.ReadBlock on the bytes of every output = the records the library reader returns (rdq; also on rewritten, "
+             "foreign-writer and mutated files in C08/C18/C03); and the three-way differential with the independent Lean RFC 8618 reader and the reference expectation.",
+        note="What is proved is about the models: Model/Builder.lean, Model/Resolve.lean, Model/ReadBlock.lean, Model/Structs.lean are hand-written and tied to the "
+             "code by the bld/blk/prjd/rdq correspondences on every session; the exporter's choice of block boundaries is C12's abstract model. "
              "Bounds of the theorems' domain: members within the C++ member widths, < 2^64 records, <= 2^32 entries per table, representable "
              "times. Trusted besides: RFC transcription, tools/refexp.py + cdnsgen.py, harness/file.cpp.",
         technique="Lean 4 proof (record-level export->read over builder + resolver models; generic schema round trip at byte level) + byte-exact model/implementation correspondence + three-way differential", design="§4 C01"),
@@ -65,11 +72,13 @@ CLAIMED = {
              "framing bytes are the RFC 8949 encodings (C06). Lean 4, inner structure (schema model): file_is_one_wellformed_item - a closed "
              "output holding conforming preamble/blocks is the encoding of exactly one well-formed item whose declared array/map lengths are "
              "the members present; file_parses_back / strict_parser_inverts_encoding - the strict RFC 8949 parser returns exactly that item "
-             "(parser is a left inverse of the encoding for EVERY well-formed item); mandatory_members_present. Tie: the model writer reproduces "
+             "(parser is a left inverse of the encoding for EVERY well-formed item); mandatory_members_present; built_block_indices_closed - in every "
+             "block built from records (any hints, any sequence) every stored index addresses an entry of the block's own tables and no entry is "
+             "unreferenced (over the model of the table-building code). Tie: the model writer reproduces "
              "the library's bytes on every output (blk driver), incl. present-but-empty structures and directly built blocks; closed indices "
              "and schema validity by the validator Spec.Cdns.interpret on every output.",
-        note="Partial proof: index closure (every stored index addresses a table entry) is validated per output by Spec.Cdns.interpret, not "
-             "proved over a model of the table-building code. Trusted: Model/Structs.lean schema table, RFC transcription.",
+        note="Index closure is proved for blocks built through the generic record interface (Model.Builder, tied byte for byte); for blocks an "
+             "application assembles item by item it is validated per output by Spec.Cdns.interpret. Trusted: Model/Structs.lean schema table, RFC transcription.",
         technique="Lean 4 proof (invariants over exporter operations; schema-level well-formedness; parser inversion) + strict Lean parser/validator as oracle", design="§4 C02"),
     "C04": dict(
         text="Lean 4 theorems over Model.Builder, a transliteration of the block-building path (add_question_response_record(Generic...), "
@@ -114,7 +123,7 @@ CLAIMED = {
              "block array cut at ANY byte offset, returns exactly the blocks wholly inside the cut (for the exporter's encoding and every "
              "equivalent well-formed re-encoding) and then CdnsDecoderEnd; readBlock_cut - a cut inside a block never yields a value. Tied by "
              "decoder-level runs at the buffer multiples and by cutting exporter-produced files of 1-4 windows at every point around window "
-             "multiples and block boundaries: library = expectation = schema model (blkc driver) on every cut. end_is_sticky / after_end_every_call_ends: once read_to_buffer has reported the end, the state it leaves makes every later call report it again (runWS keeps the state across a throw); tied by sessions that go on after E:end, multi-byte arguments straddling window multiples, truncated strings read and skipped, unreadable streams of four kinds, files with unknown members cut everywhere.",
+             "multiples and block boundaries: library = expectation = schema model (blkc driver) on every cut. end_is_sticky / after_end_every_call_ends: once read_to_buffer has reported the end, the state it leaves makes every later call report it again (runWS keeps the state across a throw); tied by sessions that go on after E:end, multi-byte arguments straddling window multiples, truncated strings read and skipped, unreadable streams of four kinds, files with unknown members cut everywhere. read_block_again_ends: at reader level, after the reported end every further read_block() - on an indefinite block array or a definite one with blocks outstanding - reports it again, never a block, never eof (the reader state advances only after a successful read); tied by go-on sessions (s+/f+) on both layouts at cuts around every block boundary.",
         note="Trusted: std::istream read/gcount/eof semantics modelled in Model/Window.lean; Model/File.lean readBlock transcribes "
              "CdnsReader::read_block (tied by the blkc correspondence).",
         technique="Lean 4 proof (refinement + generic theorems over all decoder programs + concrete block reader) + differential correspondence / cut-point enumeration", design="§4 C05"),
@@ -124,11 +133,13 @@ CLAIMED = {
              "up by key, head widths / definite-vs-indefinite / chunking invisible, unknown members ignored whatever they carry), and stops "
              "exactly behind the item; equivalent_encodings_read_equal; each rewrite of the property preserves the denotation at any depth: "
              "width_*, indef_*, chunked_*, unknown_member_ignored, member_order_irrelevant (any permutation, distinct keys), nested_array, "
-             "nested_members. Decoder level: skip_exact for any well-formed unknown value, keys beyond int64 saturate (big_key_not_small). "
+             "nested_members. records_invariant: what the application observes of a block (block object built by CdnsBlockRead::read after the raw "
+             "read, records returned by read_generic_qr/aec/mm, or the exception class: Model.ReadBlock.blockOutcome) is a function of the "
+             "denotation - index resolution and time arithmetic never see the encoding. Decoder level: skip_exact for any well-formed unknown value, keys beyond int64 saturate (big_key_not_small). "
              "Tie: exporter-produced files rewritten by random compositions of all rewrites; library reader dump(original) = dump(rewritten) "
-             "= schema-model reader on the rewritten file (sch/blk drivers); the independent Lean reader confirms each rewrite kept the meaning. RFC 8618-level rewrites too: table entries written twice, blocks of parameter set 0 without block-parameters-index.",
-        note="Trusted: tools/cborgen.py rewrites, Spec/Cdns.lean, Model/Structs.lean schema table. The resolution of indexes/time offsets after "
-             "the raw read is outside the schema model (independent interpretation Spec.Cdns).",
+             "= schema-model reader on the rewritten file (sch/blk drivers) = Model.ReadBlock records (rdq driver); the independent Lean reader confirms each rewrite kept the meaning. RFC 8618-level rewrites too: table entries written twice, blocks of parameter set 0 without block-parameters-index.",
+        note="Trusted: tools/cborgen.py rewrites, Spec/Cdns.lean, Model/Structs.lean schema table, Model/ReadBlock.lean (hand-written, tied by rdq). "
+             "Duplicate keys inside one map (not well-formed CBOR) are outside the theorems.",
         technique="Lean 4 proof (reader computes a syntax-independent denotation; rewrite lemmas) + metamorphic differential testing", design="§4 C08"),
     "C09": dict(
         text="Lean 4: one generic interpreter of the struct write/read functions (Model/Schema) instantiated for FilePreamble -> BlockParameters -> "
@@ -202,18 +213,23 @@ CLAIMED = {
     "C18": dict(
         text="Lean 4 over a model of cdns-merge's two passes (any file system, any list of input names, repeats): merged_params_equal "
              "(every merged block refers to a parameter set equal to its source's), rejected_contribute_nothing / "
-             "mismatch_contributes_nothing, blocks_in_order. Tied by the real cdns-merge / cdns-itemcount binaries (sanitizer builds from "
+             "mismatch_contributes_nothing, blocks_in_order. Concretely for one merged block (Model.ReadBlock + Model.Builder.toVal): "
+             "merged_block_same_records - a block read from ANY well-formed input, re-written by writer.write_block(block) under the shifted "
+             "index and read from the merged file is the same block object (tables, items, times, counts, statistics) with the same records; "
+             "remap_rate / absent_index_is_zero for the index arithmetic (reread_of_read_block: write-after-read is the identity on what is read). Tied by the real cdns-merge / cdns-itemcount binaries (sanitizer builds from "
              "the working tree) on tuples of 1..6 files with unreadable, empty, version-mismatched, truncated and duplicated members; "
              "merged output read by the library reader and the independent Lean reader vs the expectation assembled from the Lean "
-             "model's structure; itemcount output vs independent counts for all option combinations. The pool also holds files as other writers lay them out (duplicate table entries, one address-event key in several items, item-less blocks, absent block-parameters-index, unknown members), twins differing only in tick rate or in collection parameters, private version 0 vs absent; tuples may start with an unreadable member; in-place merges.",
-        note="Trusted: parameter sets and block contents abstract ids in the model (their unchanged copying is C01/C09); Driver/Mrg.lean.",
+             "model's structure; itemcount output vs independent counts for all option combinations; the bytes of every merged block = the block the model re-writes (mrgb driver). The pool also holds files as other writers lay them out (duplicate table entries, one address-event key in several items, item-less blocks, absent block-parameters-index, unknown members), twins differing only in tick rate or in collection parameters, private version 0 vs absent; tuples may start with an unreadable member; in-place merges.",
+        note="Trusted: in the two-pass model parameter sets and block contents are abstract ids; the concrete block is Model.ReadBlock/Builder.toVal "
+             "(hand-written, tied by rdq/mrgb); preconditions of merged_block_same_records: tick rate >= 1, earliest time representable. Driver/Mrg.lean.",
         technique="Lean 4 proof (invariant of pass 1 map) + differential correspondence with the real tools", design="§4 C18"),
     "C20": dict(
         text="Lean 4: schedule_independent (threads with private state and read-only shared data give, under EVERY interleaving, the "
              "sequential per-thread results) + generated obligations over the inventory rebuilt by translator T2 from the working "
              "tree's objects: no_shared_mutable (every writable static-storage symbol is const-qualified, thread-local or runtime data), "
-             "no_nonreentrant_call. Failing-schedule search: ThreadSanitizer build, 2..16 threads with independent exporter / reader / "
-             "renderer workloads (all compression modes), injected yields, per-thread results vs sequential run. Each workload also: a failed rotation must not touch the old descriptor number afterwards; a block with 48 address-event keys is written and read back (hash order must not depend on the thread).",
+             "no_nonreentrant_call; the inventory includes the statics of header-defined inline member functions (an all-headers unit compiled "
+             "with -fkeep-inline-functions; unique/weak objects of namespace CDNS). Failing-schedule search: ThreadSanitizer build, 2..16 threads with independent exporter / reader / "
+             "renderer workloads (all compression modes), injected yields, per-thread results vs sequential run. Each workload also: a failed rotation must not touch the old descriptor number afterwards; a block with 48 address-event keys is written and read back (hash order must not depend on the thread); named outputs (plain/gzip/xz) with small pieces pending in the stream and one rotation.",
         note="Partial: sharing through application-provided pointers is outside the inventory (excluded by the property); libstdc++, "
              "zlib, liblzma trusted thread-safe for distinct objects; C++ memory model trusted.",
         technique="Lean 4 proof + translator-regenerated symbol inventory (decide) + ThreadSanitizer schedule search", design="§4 C20"),
